@@ -305,5 +305,82 @@ fn f(a: i32, b: i32) -> i32 {{ k({}) * 1000 + a }}
             Some(if r == -1 { -1 } else if r > 100 { 100 } else if r == 0 { 0 } else if r == 1 { 1 } else if r == 2 { 2 } else if r < 15 { 10 } else if r < 25 { 20 } else { 30 })
         }));
     }
+    // ---- match on an enum with k variants: EVERY non-empty subset of the variants named
+    // by an arm (in ascending and in descending order), `_` for the rest (also a redundant
+    // `_` after all variants), evaluated on every variant; field-less enums and enums
+    // whose variants carry 0, 1 or 2 payload fields; the examinee a call result, a
+    // parameter of enum type, and a local (added after seeded change C01-4)
+    for k in 2..=5usize {
+        for payload in [false, true] {
+            // variant i of the payload enum has i % 3 fields
+            let fields = move |i: usize| if payload { i % 3 } else { 0 };
+            let decl: Vec<String> = (0..k)
+                .map(|i| match fields(i) {
+                    0 => format!("V{i}"),
+                    1 => format!("V{i}(i32)"),
+                    _ => format!("V{i}(i32, i32)"),
+                })
+                .collect();
+            let ctor = move |i: usize| match fields(i) {
+                0 => format!("En.V{i}"),
+                1 => format!("En.V{i}(b)"),
+                _ => format!("En.V{i}(b, {})", i + 2),
+            };
+            let mk: String = (0..k - 1).map(|i| format!("if n == {i} {{ {} }} else ", ctor(i))).collect::<String>()
+                + &format!("{{ {} }}", ctor(k - 1));
+            for mask in 1u32..(1 << k) {
+                for desc in [false, true] {
+                    for redundant in [false, true] {
+                        let all = mask == (1 << k) - 1;
+                        if redundant && !all {
+                            continue;
+                        }
+                        let mut named: Vec<usize> = (0..k).filter(|i| mask >> i & 1 == 1).collect();
+                        if desc {
+                            named.reverse();
+                        }
+                        let mut arms: Vec<String> = named
+                            .iter()
+                            .map(|i| match fields(*i) {
+                                0 => format!("V{i} => {}", (i + 1) * 7),
+                                1 => format!("V{i}(x) => {} + x", (i + 1) * 7),
+                                _ => format!("V{i}(x, y) => {} + x - y", (i + 1) * 7),
+                            })
+                            .collect();
+                        if !all || redundant {
+                            arms.push("_ => 1".into());
+                        }
+                        let arms = arms.join(", ");
+                        for (shape, body) in [
+                            ("call", format!("match mk(a, b) {{ {arms} }}")),
+                            ("param", "sel(mk(a, b))".to_string()),
+                            ("local", format!("let e = mk(a, b); let r = match e {{ {arms} }}; r + 0")),
+                        ] {
+                            let src = format!(
+                                "enum En {{ {} }}\nfn mk(n: i32, b: i32) -> En {{ {mk} }}\nfn sel(e: En) -> i32 {{ match e {{ {arms} }} }}\nfn f(a: i32, b: i32) -> i32 {{ {body} }}\n",
+                                decl.join(", ")
+                            );
+                            v.push(t(
+                                format!("match-subset-k{k}-{}-m{mask}-{}{}-{shape}", if payload { "payload" } else { "plain" }, if desc { "desc" } else { "asc" }, if redundant { "-redundant" } else { "" }),
+                                src,
+                                move |a, b| {
+                                    let i = if a >= 0 && (a as usize) < k - 1 { a as usize } else { k - 1 };
+                                    if mask >> i & 1 == 0 {
+                                        return Some(1);
+                                    }
+                                    let base = ((i + 1) * 7) as i32;
+                                    Some(match fields(i) {
+                                        0 => base,
+                                        1 => base.wrapping_add(b),
+                                        _ => base.wrapping_add(b).wrapping_sub(i as i32 + 2),
+                                    })
+                                },
+                            ));
+                        }
+                    }
+                }
+            }
+        }
+    }
     v
 }
